@@ -236,3 +236,19 @@ Definition ws_points : list N :=
    8232; 8233; 8239; 8287; 12288].
 Fixpoint nlist_eqb (a b : list N) : bool :=
   match a, b with [], [] => true | x :: a', y :: b' => (x =? y) && nlist_eqb a' b' | _, _ => false end.
+
+(* Parameter.ReadParameter, list-valued parameters without a position ("Gradients, 50, 40, 30", "Thicknesses, 1, 1"):
+     [float(x.strip()) for x in raw_entry.split('--')[0].split(',')[1:] if x.strip() != '']
+   [before_dd] is str.split('--')[0]; [list_fields] are the texts handed to float() *)
+Fixpoint before_dd (s : string) : string :=
+  match s with
+  | [] => []
+  | c :: r => match r with
+              | c2 :: _ => if UA.eqb c DASH && UA.eqb c2 DASH then [] else c :: before_dd r
+              | [] => [c]
+              end
+  end.
+Definition list_fields (raw : string) : list string :=
+  filter (fun f => negb (is_empty f)) (map strip (tl (split_on COMMA (before_dd raw)))).
+Fixpoint fields_eqb (a b : list string) : bool :=
+  match a, b with [], [] => true | x :: a', y :: b' => US.eqb x y && fields_eqb a' b' | _, _ => false end.
